@@ -10,6 +10,8 @@
 from __future__ import annotations
 
 import json
+import re
+import sys
 from typing import Any
 
 from . import concretise, core, tlaval
@@ -251,10 +253,15 @@ def parse_and_judge(chk: Check, items: list[tuple[str, dict, list[str], Any]], m
             if ndrift <= 3:
                 chk.note_drift(f"{label}: trace {v['id']} has {v['ndrift']} tracker step(s) not explained by CycleTracker.tla (first at event {v['firstdrift']}); scenario {json.dumps(sc)[:200]}")
         if v["clause"].startswith("diag."):
-            nraised = chk.cov.get("load_raised", 0) + 1
-            chk.cov["load_raised"] = nraised
-            if nraised <= 2:
-                chk.note_drift(f"{label}: loading raised visibly ({r['err'][:120]}) for {json.dumps(sc)[:200]} - not judged")
+            # a valid document whose load RAISES has no result at all: "every declared schema name is present in the result" fails,
+            # visibly.  The locus names the exception and whether the document declares a bare-$ref (alias) schema.
+            chk.cov["load_raised"] = chk.cov.get("load_raised", 0) + 1
+            etype, _, emsg = r["err"].partition(":")
+            edges = sc.get("edges", []) if isinstance(sc, dict) else []
+            loc = {"family": label.split("[")[0], "exctype": etype.strip(), "msgclass": re.sub(r"'[^']*'", "'*'", emsg.strip())[:60], "alias": any(e.get("kind") == "alias" for e in edges)}
+            if isinstance(sc, dict) and "shape" in sc:
+                loc.update({"shape": sc["shape"], "kind": sc["kind"]})
+            chk.fail("C08.load_raised", loc, {"scenario": sc, "max_depth": md, "spec": spec}, f"err={r['err']}")
         elif v["clause"] != "ok":
             loc = dict(v["locus"])
             loc["family"] = label
@@ -269,6 +276,7 @@ def parse_and_judge(chk: Check, items: list[tuple[str, dict, list[str], Any]], m
 
 
 def run(chk: Check) -> None:
+    sys.setrecursionlimit(50000)  # this process only encodes / decodes the deeply nested documents (jobs, replay files)
     chk.cov["rule"] = (
         "TLC enumerates (a) the complete state graph of the tracker API for each name set (every edge replayed on the real "
         "UnifiedCycleContext), (b) every schema graph over 2 names with <=2 (quick) / <=3 (thorough) edges of 9 kinds in every "
@@ -303,7 +311,8 @@ def run(chk: Check) -> None:
         parse_and_judge(chk, items, None, "graphs[A+B+C,<=3]")
     # (c) depth families
     for md in (3, 10, 150):
-        base = [md - 1, md, md + 1, md + 5] + ([3 * md] if md <= 10 or thorough else [])
+        # far beyond the limit as well: the descent must be cut by placeholders, whatever else walks the document (validation, copies)
+        base = [md - 1, md, md + 1, md + 5] + ([3 * md] if md <= 10 or thorough else []) + ([300, 420] if md != 3 else [])
         lengths = sorted({x for x in base if x >= 1})
         sc = gen_chains(chk, lengths, ["ref", "arr", "inline", "oneOf", "allOf", "map"], ["inline", "arr", "oneOf", "map", "arrInline", "allOf"])
         items = []
@@ -315,6 +324,7 @@ def run(chk: Check) -> None:
 
 
 def replay(chk: Check, path: str) -> None:
+    sys.setrecursionlimit(50000)
     rec = json.loads(open(path).read())
     sc = rec["scenario"]
     if "spec" not in sc:
